@@ -356,7 +356,22 @@ impl<'a> Printer<'a> {
                 for m in pre {
                     self.line_ann(m);
                 }
-                self.expr(e, L_TERM);
+                // a term takes one inline annotation: a second one would attach to whatever encloses the term
+                fn ends_with_post(e: &E) -> bool {
+                    match e {
+                        E::Ann { post: Some(_), .. } => true,
+                        E::Ann { post: None, e, .. } => ends_with_post(e),
+                        _ => false,
+                    }
+                }
+                let inner_has_post = ends_with_post(e);
+                if post.is_some() && inner_has_post {
+                    self.tok("(");
+                    self.expr(e, L_STMT);
+                    self.tok(")");
+                } else {
+                    self.expr(e, L_TERM);
+                }
                 if let Some(m) = post {
                     self.tok(&format!("`{}`", ann_map_text(m)));
                 }
